@@ -564,15 +564,15 @@ public:
 
 	iterator erase(const_iterator first, const_iterator last)
 	{
+		if (first == last)
+			return first;
+		if (first != end() && std::next(first) == last)
+			return erase(first);
 		if (first == begin() && last == end())
 		{
 			clear();
 			return end();
 		}
-		if (first == last)
-			return first;
-		if (first != end() && std::next(first) == last)
-			return erase(first);
 		throw std::invalid_argument("invalid unordered_set erase arguments");
 	}
 
